@@ -43,6 +43,13 @@ def snapshot(net):
     for tab, cols in FLOWS:
         if len(net[tab]):
             out[tab] = net["res_" + tab][cols].values.astype(float).copy()
+    # voltage magnitudes at branch terminals (they also show the auxiliary buses behind open branch switches)
+    vt = [vm]
+    for tab in ("line", "trafo", "trafo3w"):
+        if len(net[tab]):
+            r = net["res_" + tab]
+            vt += [r[c].values.astype(float) for c in r.columns if c.startswith("vm_") and c.endswith("_pu")]
+    out["VM_terminals"] = np.concatenate(vt)
     return out
 
 
@@ -79,10 +86,31 @@ def compare(ref, alt, family):
 
 def low_voltage_solution(ref, alt):
     """the alternative converged to ANOTHER valid solution of the power flow equations (the non-physical
-    low-voltage branch): some bus below 0.5 p.u. that is above 0.8 p.u. in the reference."""
-    a, b = np.abs(ref["V"]), np.abs(alt["V"])
+    low-voltage branch): some bus or branch terminal (incl. auxiliary buses behind open switches) below 0.5 p.u.
+    that is above 0.8 p.u. in the reference."""
+    a, b = ref["VM_terminals"], alt["VM_terminals"]
+    if a.shape != b.shape:
+        return False
     m = ~(np.isnan(a) | np.isnan(b))
     return bool(((b[m] < 0.5) & (a[m] > 0.8)).any())
+
+
+def other_valid_root(ref_net, alt_net, tol=1e-6):
+    """Is the alternative's voltage vector ANOTHER exact solution of the reference's own power flow equations?
+    Evaluated with the REFERENCE run's internal Ybus / Sbus / bus types (so a wrongly built admittance matrix in the
+    alternative path can never pass): mismatch at PQ buses (P and Q), at PV buses (P and |V|) and the slack voltage."""
+    try:
+        ri, ai = ref_net._ppc["internal"], alt_net._ppc["internal"]
+        Y, S, Vr, Va = ri["Ybus"], ri["Sbus"], ri["V"], ai["V"]
+        if Vr.shape != Va.shape:
+            return False
+        mis = Va * np.conj(Y * Va) - S
+        pq, pv, rf = ri["pq"], ri["pv"], ri["ref"]
+        ok = np.abs(mis[pq]).max(initial=0.) < tol and np.abs(mis[pv].real).max(initial=0.) < tol and \
+            np.abs(np.abs(Va[pv]) - np.abs(Vr[pv])).max(initial=0.) < tol and np.abs(Va[rf] - Vr[rf]).max(initial=0.) < tol
+        return bool(ok) and bool(np.abs(Va - Vr).max() > 1e-3)
+    except Exception:
+        return False
 
 
 def run_alt(net, c):
